@@ -2,6 +2,8 @@
 //! (`--shard i/n`), merges what they observed, writes evidence and prints verdict lines.
 mod bv;
 mod explore;
+mod gen;
+mod refil;
 mod props;
 mod report;
 mod util;
@@ -155,6 +157,7 @@ fn main() {
 
     if let Some((s, n)) = shard {
         // worker
+        util::tune_malloc();
         util::limit_memory(prop.mem_limit);
         let ctx = Ctx {
             tier,
